@@ -1023,6 +1023,8 @@ fn main() {
             (vec![Rule { left: 0, right: 0, op: 1 }], None),
             (vec![Rule { left: 1, right: 0, op: 4 + 2 * 3 + 1 }], None),
             (vec![Rule { left: 1, right: 2, op: 4 + 1 * 3 + 1 }], Some(b'c')),
+            // a left-boundary kern and a kern against the right boundary: the word `a` is `kern a kern`
+            (vec![Rule { left: 0, right: 0, op: 1 }, Rule { left: 1, right: 2, op: 0 }], Some(b'c')),
         ];
         let np = progs.len() as u64;
         let hwords: [&str; 2] = ["ab", "a"];
@@ -1037,7 +1039,7 @@ fn main() {
         }
         let font_file = tfm::File::deserialize(&fb).0.expect("harness font");
         let (pg, ff, sh) = (&progs, &font_file, &sh);
-        ctx.family("add-word-history", "one TextPreprocessorImpl with two registered fonts (every ordered pair of 6 small programs) x every history of <= 3 operations over {activate_font(0), activate_font(1), add_word(ab), add_word(a), new_paragraph}: the nodes each add_word appends (glyphs, ligature kind, kerns, font id) are compared with the reference interpreter under the font active at that moment", np * np * nhist, |i, acc| {
+        ctx.family("add-word-history", "one TextPreprocessorImpl with two registered fonts (every ordered pair of 7 small programs) x every history of <= 3 operations over {activate_font(0), activate_font(1), add_word(ab), add_word(a), new_paragraph}: the WHOLE list after each add_word (node count, glyphs, ligature kind, kerns, font ids; earlier nodes unchanged) is compared with the reference interpreter under the font active at that moment", np * np * nhist, |i, acc| {
             let d = vcore::digits(i, &[np, np, nhist]);
             let hist = vcore::nth_string(5, d[2]);
             let fonts: Vec<(Font, CompiledProgram)> = [d[0], d[1]]
@@ -1089,9 +1091,9 @@ fn main() {
                         1 => tp.activate_font(1),
                         4 => tp.new_paragraph(),
                         w => {
-                            let start = list.len();
                             tp.add_word(hwords[(*w - 2) as usize], &mut list);
-                            out.push(list[start..].iter().filter_map(|h| match h {
+                            // the WHOLE list after this step
+                            out.push(list.iter().filter_map(|h| match h {
                                 boxworks::ds::Horizontal::Char(c) => Some((Out::G(c.char as u8), false, c.font)),
                                 boxworks::ds::Horizontal::Ligature(l) => Some((Out::G(l.char as u8), true, l.font)),
                                 boxworks::ds::Horizontal::Kern(k) => Some((Out::K(k.width.0 as i64), false, u32::MAX)),
@@ -1107,17 +1109,35 @@ fn main() {
                 Err(p) => acc.fail(i, case(), "returns", p.describe(), "add_word history panicked"),
                 Ok(out) => {
                     let mut ok = true;
+                    let mut whole: Vec<((Out, bool), usize)> = vec![]; // expected whole list so far, with font
+                    let mut back_to_back = false;
                     for ((w, f), g) in seen.iter().zip(out.iter()) {
-                        let want = expect(&fonts[*f].0, hwords[(*w - 2) as usize]);
-                        let same = want.len() == g.len() && want.iter().zip(g.iter()).all(|((wo, wl), (go, gl, gf))| wo == go && (!*wl || *gl) && (*gf == u32::MAX || *gf == *f as u32));
+                        let add = expect(&fonts[*f].0, hwords[(*w - 2) as usize]);
+                        if matches!(whole.last(), Some(((Out::K(_), _), _))) && matches!(add.first(), Some((Out::K(_), _))) {
+                            back_to_back = true;
+                        }
+                        whole.extend(add.into_iter().map(|x| (x, *f)));
+                        let want: Vec<(Out, bool)> = whole.iter().map(|x| x.0.clone()).collect();
+                        let fonts_ok = whole.len() == g.len() && whole.iter().zip(g.iter()).all(|((_, wf), (_, _, gf))| *gf == u32::MAX || *gf == *wf as u32);
+                        let f = &0usize; // font ids are checked through `fonts_ok`
+                        let _ = f;
+                        if !fonts_ok {
+                            acc.fail(i, case(), format!("whole list after this add_word: {whole:?} ((glyph/kern, ligature?), font id)"), format!("{g:?} (glyph/kern, ligature?, font id)"), "the list after add_word differs from the lig/kern programs of the fonts active at each step (node count / font ids)");
+                            ok = false;
+                            break;
+                        }
+                        let same = want.len() == g.len() && want.iter().zip(g.iter()).all(|((wo, wl), (go, gl, _))| wo == go && (!*wl || *gl));
                         if !same {
-                            acc.fail(i, case(), format!("add_word({}) under font {f}: {want:?} (glyph/kern, ligature?) with font id {f}", hwords[(*w - 2) as usize]), format!("{g:?} (glyph/kern, ligature?, font id)"), "the nodes add_word appends differ from the lig/kern program of the active font");
+                            acc.fail(i, case(), format!("whole list after add_word({}): {want:?} (glyph/kern, ligature?)", hwords[(*w - 2) as usize]), format!("{g:?} (glyph/kern, ligature?, font id)"), "the whole list after add_word differs from the lig/kern programs (earlier nodes changed, or a node missing)");
                             ok = false;
                             break;
                         }
                     }
                     if ok && collide {
                         acc.count("same_word_added_under_two_fonts_with_different_programs");
+                    }
+                    if ok && back_to_back {
+                        acc.count("two_words_added_back_to_back_with_boundary_kerns_on_both_sides");
                     }
                 }
             }
@@ -1193,6 +1213,7 @@ fn main() {
     ctx.require("left_boundary_rule_fired", "a left boundary rule fired");
     ctx.require("right_boundary_rule_fired", "a rule fired against the right boundary character");
     ctx.require("ligature_glyph_equals_its_single_original_char", "add_word route: a ligature node whose glyph is its single original character, no boundary involved (e.g. LIG/> re-inserting the character it deletes)");
+    ctx.require("two_words_added_back_to_back_with_boundary_kerns_on_both_sides", "add_word history: two words added in a row without a space, the first ending in a right-boundary kern and the second starting with a left-boundary kern");
     ctx.require("same_word_added_under_two_fonts_with_different_programs", "add_word history: the same word is added under both fonts of one preprocessor and the two programs treat it differently");
     ctx.require("add_word_route_compared", "words whose horizontal list from add_word / add_text was compared");
     ctx.require("one_char_word_with_boundary_rule", "a one-character word for which a left- or right-boundary rule fires, through add_word");
